@@ -182,11 +182,67 @@ def explore(ctx):
     finally:
         G.ProgGen = orig
     r = CK.merge(r, CK.explore(ctx, "C10", versioning=True, n_quick=1500, n_thorough=20000))
+    c = crash_part(ctx)
+    r["violations"] += [(d, t) for (d, t, _) in c["violations"]][:3]
+    cc = c["coverage"]
+    r["coverage"]["evaluations"] += cc["evaluations"]
+    r["coverage"]["distinct_nontrivial"] += cc["distinct_nontrivial"]
+    r["coverage"]["crash_images"] = cc.get("images")
+    r["coverage"]["crash_verdicts"] = cc.get("verdicts")
     r["coverage"]["rule"] = ("histories of timestamped sets / soft deletes / hard deletes / replaces with a script-driven clock (non-decreasing "
                              "timestamps), time-travel reads at random timestamps, complete forward and backward history traversals with all "
                              "option combinations (tombstones, timestamp range, limit), flush/compaction/reopen placed anywhere, readers held open "
-                             "across compactions; non-trivial = a compaction, a hard delete or replace, and at least 3 commits")
+                             "across compactions; non-trivial = a compaction, a hard delete or replace, and at least 3 commits; plus crash images of versioned stores "
+                             "with the version index: every image must reopen with a prefix of the commit order and the history through the index must "
+                             "equal the history of the LSM back-end")
     return r
+
+
+def hist_check(imgs, answers, opts, script, log):
+    """crash images of a store with the version index: after recovery the history answered through the index (idx=1)
+    must equal the history answered by the LSM back-end (idx=0) on a copy of the same recovered image, and the
+    time-travel read of every key at the last timestamp must agree too.  Returns [(desc, replay_text)]."""
+    import shutil, os
+    from . import crashwl as CW
+    pick = [(d, ci, pol) for (d, ci, pol), a in zip(imgs, answers) if a and len(a) > 3 and a[1] == "ok" and a[3].startswith("list:")]
+    if len(pick) > 60:
+        # namespace operations first (manifest switch, unlink), then a sample
+        prio = [x for x in pick if log[x[1]][:1] in ("R", "U", "S")]
+        pick = prio[:40] + pick[::max(1, len(pick) // 20)][:20]
+    scripts, meta = [], []
+    for d, ci, pol in pick:
+        d2 = d + "_lsm"
+        shutil.rmtree(d2, ignore_errors=True)
+        shutil.copytree(d, d2)
+        for dd, o in ((d, opts), (d2, opts.replace("idx=1", "idx=0"))):
+            scripts.append(["e2 newat %s" % dd, "e2 open %s" % o, "e2 begin 1 ro", "e2 history 1 - ff 1 ~ ~ f", "e2 close"])
+        meta.append((d, ci, pol))
+    out = []
+    if not scripts:
+        return out
+    res = C.run_pairs(scripts, sides=("impl",), timeout=900)
+    for j, (d, ci, pol) in enumerate(meta):
+        a = res[2 * j]["impl"][0]
+        b = res[2 * j + 1]["impl"][0]
+        ha = a[3] if len(a) > 3 else "<missing>"
+        hb = b[3] if len(b) > 3 else "<missing>"
+        shutil.rmtree(d + "_lsm", ignore_errors=True)
+        if ha != hb:
+            desc = ("after recovery of the crash image at operation %d (%s), model=%s, the version history through the index differs from the "
+                    "history of the LSM back-end: index %s / LSM %s" % (ci, log[ci][:60], pol, ha[:150], hb[:150]))
+            text = ["# property=C10", "# oracle: " + desc[:600], "# options: " + opts, "# workload:"] + ["> " + l for l in script]
+            text += ["# log tail before the cut:"] + ["#   " + l[:160] for l in log[max(0, ci - 10):ci + 1]]
+            out.append((desc[:400], "\n".join(text) + "\n"))
+            if len(out) >= 2:
+                break
+    return out
+
+
+def crash_part(ctx):
+    from . import crashwl as CW
+    return CW.explore(dict(ctx, seed=ctx["seed"] + 4000), "C10", {"open-failed", "acked-lost", "not-a-prefix"}, n_quick=5, n_thorough=30,
+                      opts_pool=["lc=2,ver=1,vlog=1,vth=0,idx=1", "lc=2,ver=1,vlog=1,vth=0,idx=1,foc=1", "lc=2,ver=1,vlog=1,vth=8,vfs=512,idx=1"],
+                      extra_check=hist_check)
 
 
 def classify(lines, exp, got):
